@@ -295,3 +295,145 @@ pub proof fn lemma_pow10(n: nat)
         assert(pow10(10) == 10_000_000_000) by { reveal_with_fuel(vstd::arithmetic::power::pow, 12); }
     }
 }
+
+// =================================================================================================
+// Part 3 — the asset token, under the explicit hypothesis that it follows SEP-41.
+// `AssetLedger` is the asset token's own book (balances, live allowances); an `AOp` is one of the three token
+// operations the vault issues; `aop_ok` = "SEP-41 lets it return", `aop_next` = its effect.  Nothing is assumed
+// about `ext`: the lemmas say "IF the calls recorded by the operation are answered as SEP-41 prescribes on some
+// ledger l0 THEN ...".  The asset is a contract other than the vault (M8: no re-entrancy), its book is not the
+// vault's share book.
+// =================================================================================================
+pub struct AssetLedger { pub bal: Map<Address, int>, pub alw: Map<(Address, Address), int> }
+pub open spec fn abal(l: AssetLedger, a: Address) -> int { if l.bal.contains_key(a) { l.bal[a] } else { 0 } }
+pub open spec fn aalw(l: AssetLedger, from: Address, spender: Address) -> int { if l.alw.contains_key((from, spender)) { l.alw[(from, spender)] } else { 0 } }
+pub open spec fn ledger_inv(l: AssetLedger) -> bool { forall|a: Address| #[trigger] abal(l, a) >= 0 }
+
+pub enum AOp {
+    Balance { id: Address, answer: i128 },
+    Transfer { from: Address, to: Address, amount: i128 },
+    TransferFrom { spender: Address, from: Address, to: Address, amount: i128 },
+}
+pub open spec fn aop_call(tok: Address, op: AOp) -> Call {
+    match op {
+        AOp::Balance { id, answer } => c_balance(tok, id, answer),
+        AOp::Transfer { from, to, amount } => c_transfer(tok, from, to, amount),
+        AOp::TransferFrom { spender, from, to, amount } => c_transfer_from(tok, spender, from, to, amount),
+    }
+}
+/// SEP-41: the operation returns only if ...
+pub open spec fn aop_ok(l: AssetLedger, op: AOp) -> bool {
+    match op {
+        AOp::Balance { id, answer } => answer as int == abal(l, id),
+        AOp::Transfer { from, to, amount } => amount >= 0 && abal(l, from) >= amount,
+        AOp::TransferFrom { spender, from, to, amount } => amount >= 0 && aalw(l, from, spender) >= amount && abal(l, from) >= amount,
+    }
+}
+pub open spec fn move_bal(l: AssetLedger, from: Address, to: Address, amount: int) -> Map<Address, int> {
+    let b1 = l.bal.insert(from, abal(l, from) - amount);
+    b1.insert(to, (if b1.contains_key(to) { b1[to] } else { 0 }) + amount)
+}
+/// ... and then has exactly this effect
+pub open spec fn aop_next(l: AssetLedger, op: AOp) -> AssetLedger {
+    match op {
+        AOp::Balance { .. } => l,
+        AOp::Transfer { from, to, amount } => AssetLedger { bal: move_bal(l, from, to, amount as int), ..l },
+        AOp::TransferFrom { spender, from, to, amount } =>
+            AssetLedger { bal: move_bal(l, from, to, amount as int), alw: l.alw.insert((from, spender), aalw(l, from, spender) - amount) },
+    }
+}
+pub open spec fn aops_run(l: AssetLedger, ops: Seq<AOp>) -> AssetLedger
+    decreases ops.len()
+{
+    if ops.len() == 0 { l } else { aop_next(aops_run(l, ops.drop_last()), ops.last()) }
+}
+pub open spec fn aops_ok(l: AssetLedger, ops: Seq<AOp>) -> bool
+    decreases ops.len()
+{
+    ops.len() == 0 || (aops_ok(l, ops.drop_last()) && aop_ok(aops_run(l, ops.drop_last()), ops.last()))
+}
+pub open spec fn aops_calls(tok: Address, ops: Seq<AOp>) -> Seq<Call> { Seq::new(ops.len(), |i: int| aop_call(tok, ops[i])) }
+
+pub proof fn lemma_aops_push(l: AssetLedger, ops: Seq<AOp>, op: AOp)
+    ensures aops_run(l, ops.push(op)) == aop_next(aops_run(l, ops), op),
+        aops_ok(l, ops.push(op)) == (aops_ok(l, ops) && aop_ok(aops_run(l, ops), op)),
+{
+    assert(ops.push(op).drop_last() =~= ops);
+}
+/// a transfer moves exactly `amount` from `from` to `to`, nothing else, and keeps balances non-negative
+pub proof fn lemma_move_bal(l: AssetLedger, from: Address, to: Address, amount: int)
+    requires ledger_inv(l), 0 <= amount <= abal(l, from),
+    ensures
+        forall|a: Address| #[trigger] abal(AssetLedger { bal: move_bal(l, from, to, amount), ..l }, a)
+            == abal(l, a) - (if a == from { amount } else { 0 }) + (if a == to { amount } else { 0 }),
+        ledger_inv(AssetLedger { bal: move_bal(l, from, to, amount), ..l }),
+{
+    let l2 = AssetLedger { bal: move_bal(l, from, to, amount), ..l };
+    assert forall|a: Address| #[trigger] abal(l2, a) == abal(l, a) - (if a == from { amount } else { 0 }) + (if a == to { amount } else { 0 }) by {}
+    assert forall|a: Address| #[trigger] abal(l2, a) >= 0 by { assert(abal(l, a) >= 0); }
+}
+/// effect of one SEP-41 operation on every balance
+pub proof fn lemma_aop_effect(l: AssetLedger, op: AOp)
+    requires ledger_inv(l), aop_ok(l, op),
+    ensures
+        ledger_inv(aop_next(l, op)),
+        //@@ C05:sep41.transfer_moves_exactly_amount
+        forall|a: Address| #[trigger] abal(aop_next(l, op), a) == abal(l, a) + aop_delta(op, a),
+{
+    match op {
+        AOp::Balance { .. } => {}
+        AOp::Transfer { from, to, amount } => { lemma_move_bal(l, from, to, amount as int); }
+        AOp::TransferFrom { spender, from, to, amount } => {
+            lemma_move_bal(l, from, to, amount as int);
+            let l2 = AssetLedger { bal: move_bal(l, from, to, amount as int), ..l };
+            assert forall|a: Address| #[trigger] abal(aop_next(l, op), a) == abal(l2, a) by {}
+        }
+    }
+}
+pub open spec fn aop_delta(op: AOp, a: Address) -> int {
+    match op {
+        AOp::Balance { .. } => 0,
+        AOp::Transfer { from, to, amount } => (if a == to { amount as int } else { 0 }) - (if a == from { amount as int } else { 0 }),
+        AOp::TransferFrom { spender, from, to, amount } => (if a == to { amount as int } else { 0 }) - (if a == from { amount as int } else { 0 }),
+    }
+}
+
+// ---- instance keys of the vault and of the share supply are different ----
+pub proof fn lemma_vault_keys(w: World, v: SV)
+    ensures
+        cur_offset(set_supply_sv(w, v)) == cur_offset(w),
+        cur_asset(set_supply_sv(w, v)) == cur_asset(w),
+        VaultStorageKey::AssetAddress.sv() != supply_key(),
+        VaultStorageKey::VirtualDecimalsOffset.sv() != supply_key(),
+{
+    assert(VaultStorageKey::AssetAddress.sv()->Vec_0[0] != supply_key()->Vec_0[0]);
+    assert(VaultStorageKey::VirtualDecimalsOffset.sv()->Vec_0[0] != supply_key()->Vec_0[0]);
+}
+pub open spec fn set_supply_sv(w: World, v: SV) -> World { World { instance: w.instance.insert(supply_key(), v), ..w } }
+
+/// the share-side update leaves the vault configuration alone
+pub proof fn lemma_update_keeps_config(w: World, from: Option<Address>, to: Option<Address>, amount: int)
+    ensures
+        cur_offset(update_post(w, from, to, amount)) == cur_offset(w),
+        cur_asset(update_post(w, from, to, amount)) == cur_asset(w),
+        update_post(w, from, to, amount).calls == w.calls,
+        update_post(w, from, to, amount).ext == w.ext,
+        update_post(w, from, to, amount).this == w.this,
+{
+    let w2 = update_post(w, from, to, amount);
+    lemma_vault_keys(w, SV::Void);
+    let ka = VaultStorageKey::AssetAddress.sv();
+    let ko = VaultStorageKey::VirtualDecimalsOffset.sv();
+    assert(w2.instance.contains_key(ka) == w.instance.contains_key(ka));
+    assert(w2.instance.contains_key(ko) == w.instance.contains_key(ko));
+    if w.instance.contains_key(ka) { assert(w2.instance[ka] == w.instance[ka]); }
+    if w.instance.contains_key(ko) { assert(w2.instance[ko] == w.instance[ko]); }
+}
+/// views that depend on the persistent / instance store only
+pub proof fn lemma_store_frame(w: World, w1: World)
+    requires w1.persistent == w.persistent, w1.instance == w.instance,
+    ensures inv(w) ==> inv(w1), supply(w1) == supply(w), forall|a: Address| #[trigger] bal(w1, a) == bal(w, a),
+        cur_offset(w1) == cur_offset(w), cur_asset(w1) == cur_asset(w), virt_shares(w1) == virt_shares(w),
+{
+    assert(sum_bal(w1) == sum_bal(w));
+}
